@@ -125,6 +125,11 @@ Proof.
   destruct (cur s1 =? 43); [exact (G false (-1) (adv s1))|exact (G false (-1) s1)].
 Qed.
 
+Theorem simple_atoi_strtol : forall s,
+  fst (simple_atoi s) = fst (strtol10 s) /\
+  (snd (strtol10 s) <> s -> snd (simple_atoi s) = snd (strtol10 s)).
+Proof. intros s. split; [apply simple_atoi_value|apply simple_atoi_end]. Qed.
+
 (* ---- string_to_int, unchecked, NUL-terminated (length = 0) *)
 Theorem string_to_int_unchecked_value : forall s,
   string_to_int s false 0 = Some (fst (strtol10 s)).
@@ -272,7 +277,7 @@ Proof.
   induction s as [|c t IH]; intros n Hn Hv; cbn in *; [reflexivity|].
   unfold g_is_digit in *. destruct ((48 <=? c) && (c <=? 57)) eqn:E; [|reflexivity].
   pose proof (neg_digits_mono t (n * 10 - (c - 48))) as M.
-  unfold chk, in_int, INT_MIN, INT_MAX in *.
+  unfold chk, fits_int, INT_MIN, INT_MAX in *.
   assert (H1 : (-2147483648 <=? n * 10) && (n * 10 <=? 2147483647) = true) by lia.
   rewrite H1.
   assert (H2 : (-2147483648 <=? n * 10 - (c - 48)) && (n * 10 - (c - 48) <=? 2147483647) = true) by lia.
@@ -280,12 +285,12 @@ Proof.
 Qed.
 
 Theorem simple_atoi_no_overflow : forall s,
-  in_int (fst (simple_atoi s)) = true -> simple_atoi_int s = Some (fst (simple_atoi s)).
+  fits_int (fst (simple_atoi s)) = true -> simple_atoi_int s = Some (fst (simple_atoi s)).
 Proof.
   intros s. unfold simple_atoi, simple_atoi_int.
   set (s1 := skip_while g_is_space s).
   assert (G : forall m s2, (m = 1 \/ m = -1) ->
-     in_int (fst (let '(n, s3) := neg_digits 0 s2 in (m * n, s3))) = true ->
+     fits_int (fst (let '(n, s3) := neg_digits 0 s2 in (m * n, s3))) = true ->
      match neg_digits_int 0 s2 with Some n => chk (m * n) | None => None end
      = Some (fst (let '(n, s3) := neg_digits 0 s2 in (m * n, s3)))).
   { intros m s2 Hm. pose proof (neg_digits_mono s2 0 ltac:(lia)) as M.
@@ -293,7 +298,7 @@ Proof.
     destruct (neg_digits 0 s2) as [n r]. cbn [fst] in *. intros Hin.
     rewrite K.
     - unfold chk. rewrite Hin. reflexivity.
-    - unfold in_int, INT_MIN, INT_MAX in *. lia. }
+    - unfold fits_int, INT_MIN, INT_MAX in *. lia. }
   destruct (cur s1 =? 45); [apply G; lia|]. destruct (cur s1 =? 43); apply G; lia.
 Qed.
 
